@@ -449,6 +449,11 @@ impl Model {
                             _ => ("C03", "C03:conservation"),
                         };
                         let d = format!("after {}: {} has (outstanding, backlog) = ({}, {}), model says ({}, {})", after, short(&n), st.outstanding, st.backlog, want.0, want.1);
+                        if after == "Advance" && st.backlog < want.1 {
+                            // fewer messages available than have certainly passed their deadline: an
+                            // unacknowledged message has not been made available for redelivery
+                            self.flag("C01", "C01:unacked-message-not-redelivered", d.clone());
+                        }
                         if after == "Advance" && s.requeued.values().any(|c| *c == "expiry-after-modify") {
                             // a delivery whose deadline had been set by ModifyAckDeadline has not expired on time
                             self.flag("C05", "C05:late-after-modify:expiry-accounting", d.clone());
